@@ -34,8 +34,17 @@ FloatArgType = Union[SupportsFloat, SupportsIndex, str]
 # used by tokenizer patterns to look ahead after a name. A comment never extends
 # beyond its closing delimiter, so that a following comment is not joined with it.
 _COMMENT_TEXT = r'(?:[^(:]|\((?!\:)|\:(?!\)))*'
-SPACES_OR_COMMENTS = (r'\s*(?:\(\:' + _COMMENT_TEXT +
-                      r'(?:\(\:' + _COMMENT_TEXT + r'\:\)' + _COMMENT_TEXT + r')*\:\)\s*)*')
+
+
+def _comment_pattern(depth: int) -> str:
+    """A pattern for an XPath comment with other comments nested up to a depth."""
+    inner = _COMMENT_TEXT
+    for _ in range(depth):
+        inner = _COMMENT_TEXT + r'(?:\(\:' + inner + r'\:\)' + _COMMENT_TEXT + r')*'
+    return r'\(\:' + inner + r'\:\)'
+
+
+SPACES_OR_COMMENTS = r'\s*(?:' + _comment_pattern(6) + r'\s*)*'
 
 T = TypeVar('T')
 
